@@ -15,28 +15,45 @@ import (
 // module function calls. No control dependence.
 type Slice struct {
 	w        *World
-	Consts   map[string]bool          // string and integer constants (exact strings)
-	Calls    map[string][]ssa.Value   // resolved callee name -> call values
-	Globals  map[string]bool          // package-level variables read: "pkg.Name"
-	Fields   map[string]bool          // field reads as access paths: "sharedCache.CacheDir", "listedPackage.ImportPath"
-	Params   map[*ssa.Parameter]bool  // parameters reached and not followed further
-	Values   map[ssa.Value]bool       // every value visited
-	Dynamic  []ssa.Value              // dynamic calls (function values) reached
-	Cut      bool                     // depth limit hit somewhere
+	Consts   map[string]bool         // string and integer constants (exact strings)
+	Calls    map[string][]ssa.Value  // resolved callee name -> call values
+	Globals  map[string]bool         // package-level variables read: "pkg.Name"
+	Fields   map[string]bool         // field reads as access paths: "sharedCache.CacheDir", "listedPackage.ImportPath"
+	Params   map[*ssa.Parameter]bool // parameters reached and not followed further
+	Values   map[ssa.Value]bool      // every value visited
+	Dynamic  []ssa.Value             // dynamic calls (function values) reached
+	Cut      bool                    // depth limit hit somewhere
 	maxDepth int
 	calls    bool
 	callers  bool
+	rootOnly bool
+	stopG    map[string]bool
+	stopF    map[string]bool
 }
 
 type sliceOpt struct {
 	Depth       int  // interprocedural depth (into callees / out to callers)
 	IntoCallees bool // follow results of module functions into their return operands
 	ToCallers   bool // follow parameters to the arguments at every call site
+	// RootOnly follows only the operand that determines the *root* of a file
+	// path: the first argument of filepath.Join, the left operand of a string
+	// concatenation, the argument of Abs/Clean/Dir/EvalSymlinks.
+	RootOnly bool
+	// StopGlobals / StopFields are leaves: recorded, not traced further.
+	StopGlobals []string
+	StopFields  []string
 }
 
 func (w *World) BackSlice(v ssa.Value, opt sliceOpt) *Slice {
 	s := &Slice{w: w, Consts: map[string]bool{}, Calls: map[string][]ssa.Value{}, Globals: map[string]bool{}, Fields: map[string]bool{},
-		Params: map[*ssa.Parameter]bool{}, Values: map[ssa.Value]bool{}, maxDepth: opt.Depth, calls: opt.IntoCallees, callers: opt.ToCallers}
+		Params: map[*ssa.Parameter]bool{}, Values: map[ssa.Value]bool{}, maxDepth: opt.Depth, calls: opt.IntoCallees, callers: opt.ToCallers,
+		rootOnly: opt.RootOnly, stopG: map[string]bool{}, stopF: map[string]bool{}}
+	for _, g := range opt.StopGlobals {
+		s.stopG[g] = true
+	}
+	for _, f := range opt.StopFields {
+		s.stopF[f] = true
+	}
 	s.visit(v, 0)
 	return s
 }
@@ -127,6 +144,9 @@ func (s *Slice) visit(v ssa.Value, depth int) {
 		}
 	case *ssa.Global:
 		s.Globals[globalName(x)] = true
+		if s.stopG[globalName(x)] {
+			return
+		}
 		// also the stores into the global made by the module (initialisers, assignments)
 		s.visitGlobalStores(x, depth)
 	case *ssa.Function, *ssa.Builtin:
@@ -187,6 +207,9 @@ func (s *Slice) visit(v ssa.Value, depth int) {
 		}
 	case *ssa.BinOp:
 		s.visit(x.X, depth)
+		if s.rootOnly && x.Op == token.ADD {
+			return
+		}
 		s.visit(x.Y, depth)
 	case *ssa.Extract:
 		s.visit(x.Tuple, depth)
@@ -209,11 +232,17 @@ func (s *Slice) visit(v ssa.Value, depth int) {
 	case *ssa.SliceToArrayPointer:
 		s.visit(x.X, depth)
 	case *ssa.Field:
-		s.Fields[namedOf(x.X.Type())+"."+fieldName(x.X.Type(), x.Field)] = true
-		s.visit(x.X, depth)
+		fn := namedOf(x.X.Type()) + "." + fieldName(x.X.Type(), x.Field)
+		s.Fields[fn] = true
+		if !s.stopF[fn] {
+			s.visit(x.X, depth)
+		}
 	case *ssa.FieldAddr:
-		s.Fields[namedOf(x.X.Type())+"."+fieldName(x.X.Type(), x.Field)] = true
-		s.visit(x.X, depth)
+		fn := namedOf(x.X.Type()) + "." + fieldName(x.X.Type(), x.Field)
+		s.Fields[fn] = true
+		if !s.stopF[fn] {
+			s.visit(x.X, depth)
+		}
 	case *ssa.Index:
 		s.visit(x.X, depth)
 		s.visit(x.Index, depth)
@@ -246,6 +275,9 @@ func (s *Slice) visitLoad(addr ssa.Value, depth int) {
 		s.visit(a, depth)
 	case *ssa.FieldAddr:
 		s.visit(a, depth)
+		if s.stopF[namedOf(a.X.Type())+"."+fieldName(a.X.Type(), a.Field)] {
+			return
+		}
 		// stores to the same field of the same base value in this function
 		s.visitFieldStores(a, depth)
 	case *ssa.IndexAddr:
@@ -387,6 +419,25 @@ func (s *Slice) visitCall(c *ssa.Call, depth int) {
 	if cc.IsInvoke() {
 		s.visit(cc.Value, depth)
 	}
+	if s.rootOnly {
+		switch name {
+		case "path/filepath.Join", "path.Join":
+			// only the first element of the variadic slice determines the root
+			if first := variadicElems(cc.Args[0]); len(first) > 0 {
+				s.visit(first[0], depth)
+				return
+			}
+		case "path/filepath.Abs", "path/filepath.Clean", "path/filepath.Dir", "path/filepath.EvalSymlinks", "path/filepath.FromSlash", "path/filepath.ToSlash":
+			s.visit(cc.Args[0], depth)
+			return
+		case "(*os.File).Name":
+			s.visit(cc.Args[0], depth)
+			return
+		case "os.CreateTemp", "os.MkdirTemp":
+			s.visit(cc.Args[0], depth)
+			return
+		}
+	}
 	for _, a := range cc.Args {
 		s.visit(a, depth)
 	}
@@ -410,4 +461,45 @@ func (s *Slice) visitIn(v ssa.Value, depth int) {
 	s.callers = false
 	s.visit(v, depth)
 	s.callers = saved
+}
+
+// variadicElems returns the elements of a variadic argument built in place
+// ("new [n]T; &t[i] = v; slice t[:]"), in index order; nil if not of that shape.
+func variadicElems(v ssa.Value) []ssa.Value {
+	sl, ok := v.(*ssa.Slice)
+	if !ok {
+		return nil
+	}
+	al, ok := sl.X.(*ssa.Alloc)
+	if !ok || al.Referrers() == nil {
+		return nil
+	}
+	elems := map[int64]ssa.Value{}
+	max := int64(-1)
+	for _, r := range *al.Referrers() {
+		ia, ok := r.(*ssa.IndexAddr)
+		if !ok {
+			continue
+		}
+		idx, ok := constInt(ia.Index)
+		if !ok || ia.Referrers() == nil {
+			return nil
+		}
+		for _, q := range *ia.Referrers() {
+			if st, ok := q.(*ssa.Store); ok && st.Addr == ssa.Value(ia) {
+				elems[idx] = st.Val
+				if idx > max {
+					max = idx
+				}
+			}
+		}
+	}
+	out := make([]ssa.Value, 0, max+1)
+	for i := int64(0); i <= max; i++ {
+		if elems[i] == nil {
+			return nil
+		}
+		out = append(out, elems[i])
+	}
+	return out
 }
